@@ -42,4 +42,10 @@ theorem table_nonvacuous :
 theorem capsule_arguments_intent_out :
     capsuleArgIntents ≠ [] ∧ ∀ r ∈ capsuleArgIntents, r.2 = 0 := by decide +kernel
 
+/-- **key of the destructor registry**: `compute_idtor` registers a class's destructor under the
+    typemap's namespace-qualified `cxx_type`, which is injective on C++ types (two classes with the same
+    unqualified name in different namespaces get different keys; model:
+    `Shroud.Capsule.distinct_keys_own_destructor`, witness `same_key_runs_first_destructor`) -/
+theorem registry_key_is_qualified_type : registryKeyCode = 0 := by decide
+
 end Shroud.Capsule
